@@ -743,7 +743,7 @@ pub fn run(rep: &Report, mode: Mode) -> i32 {
     if mode == Mode::Faults {
         cov.put("fault_points", J::i(rep.get("fault_points")));
     }
-    if execs == 0 {
+    if execs == 0 && rep.nviol() == 0 {
         rep.machinery("vacuous run".into());
     }
     if mode == Mode::Find && rep.get("executions_with_roll") == 0 {
